@@ -66,7 +66,23 @@ type Contract struct {
 	LoopMods    map[string][]string
 	Sites       map[string][]*Clause
 	Lets        []*SLetDecl
+	GhostSets   []*GhostSet
 	used        bool
+}
+
+// GhostSet: a ghost assignment executed at the normal exit of the function,
+// before the postconditions are evaluated:
+//
+//	ghostset x.f = e            (f a ghost field)
+//	ghostset x.f[i int] = e(i)  (f a ghost field holding a mathematical map)
+type GhostSet struct {
+	Obj   SExpr
+	Field string
+	Var   string // comprehension variable ("" for a plain assignment)
+	VarT  string
+	Val   SExpr
+	Src   string
+	Where string
 }
 
 type SLetDecl struct {
@@ -125,7 +141,7 @@ type SpecFile struct {
 var headerRe = regexp.MustCompile(`^func\s*(\(([^)]*)\))?\s*([A-Za-z0-9_./$:\[\]*]+)\s*\(([^)]*)\)\s*(\(([^)]*)\))?\s*$`)
 
 var clauseKw = map[string]bool{"requires": true, "ensures": true, "modifies": true, "allocates": true, "maypanic": true,
-	"trusted": true, "onpanic": true, "loop": true, "site": true, "let": true, "oldlet": true, "noinline": true}
+	"trusted": true, "onpanic": true, "loop": true, "site": true, "let": true, "oldlet": true, "noinline": true, "ghostset": true}
 var topKw = map[string]bool{"opaque": true, "typeinv": true, "locset": true, "func": true, "pure": true, "ufunc": true, "axiom": true, "lemma": true, "ghost": true, "package": true, "scan": true}
 
 // readSpecLines collects the //@ lines of a file, joining continuation lines.
@@ -364,6 +380,38 @@ func parseSpecFile(path string) (*SpecFile, error) {
 					return nil, fail("%v", err)
 				}
 				cur.Lets = append(cur.Lets, &SLetDecl{Name: strings.TrimSpace(rest[:j]), Expr: e, Old: kw == "oldlet"})
+			case "ghostset":
+				j := strings.Index(rest, " = ")
+				if j < 0 {
+					return nil, fail("ghostset: expected target = expr")
+				}
+				lhs := strings.TrimSpace(rest[:j])
+				gs := &GhostSet{Src: rest, Where: w}
+				if strings.HasSuffix(lhs, "]") {
+					k := strings.LastIndex(lhs, "[")
+					vd := strings.Fields(lhs[k+1 : len(lhs)-1])
+					if len(vd) != 2 {
+						return nil, fail("ghostset: expected x.f[i T]")
+					}
+					gs.Var, gs.VarT = vd[0], vd[1]
+					lhs = lhs[:k]
+				}
+				k := strings.LastIndex(lhs, ".")
+				if k < 0 {
+					return nil, fail("ghostset: expected x.f")
+				}
+				gs.Field = lhs[k+1:]
+				oe, err := parseSpecExpr(lhs[:k])
+				if err != nil {
+					return nil, fail("%v", err)
+				}
+				gs.Obj = oe
+				ve, err := parseSpecExpr(rest[j+3:])
+				if err != nil {
+					return nil, fail("%v", err)
+				}
+				gs.Val = ve
+				cur.GhostSets = append(cur.GhostSets, gs)
 			case "modifies":
 				for _, m := range strings.Split(rest, ",") {
 					m = strings.TrimSpace(m)
